@@ -112,3 +112,6 @@ Example evaluate_example :
   evaluate [0; 1; 2; 3]%Z lo (fun _ => true) (fun _ => true) = true /\
   evaluate [0; 1; 2; 3]%Z lo (fun _ => true) (fun n => negb (Z.eqb n 3)) = false.
 Proof. vm_compute. repeat split. Qed.
+
+Example init_example : init_converged [true; false; true] = false /\ init_converged [true; true] = true /\ init_converged [] = true.
+Proof. repeat split. Qed.
